@@ -303,7 +303,7 @@ theorem qlr_append (L : Layout) (ls : WLState) (a b : List Event) :
   unfold qlr
   by_cases ha : a.all (quietEv L) = true <;> by_cases hb : b.all (quietEv L) = true <;>
     simp [ha, hb, wlr_append]
-  cases wlr L ls a <;> simp
+  all_goals (cases wlr L ls a <;> simp)
 theorem qlr_some {L : Layout} {ls ls' : WLState} {evs : List Event} (h : qlr L ls evs = some ls') :
     evs.all (quietEv L) = true ∧ wlr L ls evs = some ls' := by
   unfold qlr at h
@@ -311,13 +311,27 @@ theorem qlr_some {L : Layout} {ls ls' : WLState} {evs : List Event} (h : qlr L l
   · exact ⟨by assumption, h⟩
   · simp at h
 
+theorem qlr_cons (L : Layout) (ls : WLState) (e : Event) (evs : List Event) :
+    qlr L ls (e :: evs) = (if quietEv L e = true then
+      (match absEvW L e with
+        | none => qlr L ls evs
+        | some l => (wstep ls l).bind (fun m => qlr L m evs))
+      else none) := by
+  unfold qlr
+  by_cases he : quietEv L e = true <;> by_cases ha : evs.all (quietEv L) = true <;> simp [he, ha, wlr_cons]
+  cases absEvW L e with
+  | none => rfl
+  | some l => cases wstep ls l <;> rfl
+
 theorem paused_body (L : Layout) (fuel : Nat) (env : Env) (inp : List Val) (ls : WLState) (cnt : Nat) (rt : Bool)
-    (hI : env.vars "workqueue" = some (.ptr L.W) ∧ FlagLoopInp inp ∧ ls = ⟨.at .paused, cnt, rt⟩) :
+    (priv0 : Loc → Option Val)
+    (hI : (env.vars "workqueue" = some (.ptr L.W) ∧ env.priv = priv0) ∧ FlagLoopInp inp ∧ ls = ⟨.at .paused, cnt, rt⟩) :
     ∃ o, exec fuel wPausedBody env inp = .ok o ∧ ∃ ls', qlr L ls o.events = some ls' ∧
-      (if o.ctl.goesOn then o.env.vars "workqueue" = some (.ptr L.W) ∧ FlagLoopInp o.inp ∧ ls' = ⟨.at .paused, cnt, rt⟩
-       else o.env.vars = env.vars ∧ o.env.priv = env.priv ∧
+      (if o.ctl.goesOn then (o.env.vars "workqueue" = some (.ptr L.W) ∧ o.env.priv = priv0) ∧ FlagLoopInp o.inp ∧
+          ls' = ⟨.at .paused, cnt, rt⟩
+       else (o.env.vars "workqueue" = some (.ptr L.W) ∧ o.env.priv = priv0) ∧
         ((o.ctl = .brk ∧ ls' = ⟨.at .unpausing, cnt, rt⟩) ∨ (o.ctl = .blocked ∧ ls' = ⟨.at .paused, cnt, rt⟩))) := by
-  obtain ⟨hw, hi, rfl⟩ := hI
+  obtain ⟨⟨hw, hp0⟩, hi, rfl⟩ := hI
   cases inp with
   | nil =>
     wexec [wPausedBody, innerLoop, seqNth, wBody, firstLoop, Gen.Src.«workqueue_thread», qlr, wlr, wrun, Ctl.goesOn]
@@ -333,5 +347,179 @@ theorem paused_body (L : Layout) (fuel : Nat) (env : Env) (inp : List Val) (ls :
       by_cases hb : bit n 4 = true <;>
         wexec [wPausedBody, innerLoop, seqNth, wBody, firstLoop, Gen.Src.«workqueue_thread», qlr, wlr, wrun, Ctl.goesOn,
           absEvW, wstep, quietEv, hb]
+
+/-- oracle of the top of the loop: the flags word; if PAUSE is set: result of `uatomic_or` (ignored), the poll loop -/
+def TopInp : List Val → Prop
+  | [] => True
+  | f :: rest => ∃ n : Nat, f = .int n ∧ (bit n 4 = true →
+      match rest with
+      | [] => True
+      | _ :: r => FlagLoopInp r)
+
+/-- **the PAUSE branch** (`wTop`, from L2's `top`; hooks `worker_before_pause_fct` / `worker_after_resume_fct` unset, as
+for the hash table's work queue): the events are `wTop ; [wPause ;` stutter loads `; wSeeResume ; wUnpause]`, **all of them
+quiescent** (`quietEv`: fences, accesses to the flags word, `poll`) – no splice, no traversal of a work list, no work
+function call between the load that sees PAUSE and the `uatomic_and` that clears PAUSED; `cbcount` and `rt` are untouched. -/
+def TopPost (L : Layout) (ls : WLState) (out : Out) : Prop :=
+  ∃ ls', qlr L ls out.events = some ls' ∧ ls'.cnt = ls.cnt ∧ ls'.rt = ls.rt ∧
+    ((out.ctl = .normal ∧ ls'.pc = .at .splice) ∨
+     (out.ctl = .blocked ∧ (ls'.pc = .at .top ∨ ls'.pc = .at .pausing ∨ ls'.pc = .at .paused ∨ ls'.pc = .at .unpausing)) ∨
+     (out.ctl = .fuel ∧ ls'.pc = .at .paused))
+
+theorem worker_top_exec (L : Layout) (fuel : Nat) (env : Env) (inp : List Val) (ls : WLState)
+    (hpc : ls.pc = .at .top) (hw : env.vars "workqueue" = some (.ptr L.W))
+    (hh1 : env.priv (.field L.W "worker_before_pause_fct") = some (.int 0))
+    (hh2 : env.priv (.field L.W "worker_after_resume_fct") = some (.int 0)) (hi : TopInp inp) :
+    ∃ out, exec fuel wTop env inp = .ok out ∧ TopPost L ls out := by
+  obtain ⟨pc, cnt, rt⟩ := ls
+  simp only at hpc
+  subst hpc
+  rw [show wTop = Stmt.seq (.prim _ _ _) (.ifte _ (.seq _ (.seq _ (.seq _ (.seq (.loop wPausedBody) (.seq _ (.seq _ _)))))) .skip)
+    from rfl]
+  cases inp with
+  | nil => wexec [TopPost, qlr, wlr, wrun]
+  | cons f rest =>
+    obtain ⟨n, rfl, hi⟩ := hi
+    by_cases hb : bit n 4 = true
+    · have hi := hi hb
+      cases rest with
+      | nil => wexec [TopPost, qlr_cons, qlr_nil, quietEv, absEvW, wstep, hb]
+      | cons u r =>
+        simp only at hi
+        wexec [hb]
+        obtain ⟨out, ho, evs, ls2, hev, hl, hfin⟩ :=
+          iterate_inv' (qlr L) (qlr_nil L) (qlr_append L) (exec fuel wPausedBody)
+            (fun e i l => (e.vars "workqueue" = some (.ptr L.W) ∧ e.priv = env.priv) ∧ FlagLoopInp i ∧
+              l = ⟨.at .paused, cnt, rt⟩)
+            (fun c e _ l => (e.vars "workqueue" = some (.ptr L.W) ∧ e.priv = env.priv) ∧
+              ((c = .brk ∧ l = ⟨.at .unpausing, cnt, rt⟩) ∨ (c = .blocked ∧ l = ⟨.at .paused, cnt, rt⟩)))
+            (fun e i l h => paused_body L fuel e i l cnt rt env.priv h) fuel
+            ⟨fun y => if y = "_t6" then some (Val.int ↑n) else env.vars y, env.priv⟩ r ⟨.at .paused, cnt, rt⟩ []
+            ⟨⟨by simpa using hw, rfl⟩, hi, rfl⟩
+        rcases out with ⟨oev, oen, oip, octl⟩
+        simp only [List.nil_append] at hev
+        subst hev
+        simp only [ho]
+        rcases hfin with ⟨rfl, -, -, rfl⟩ | ⟨c, -, ⟨⟨hw2, hp2⟩, hR⟩, rfl⟩
+        · simp_all [TopPost, qlr_cons, qlr_append, quietEv, absEvW, wstep]
+        · simp only at hw2 hp2
+          rcases hR with ⟨rfl, rfl⟩ | ⟨rfl, rfl⟩
+          · cases oip with
+            | nil =>
+              wexec [TopPost, qlr_cons, qlr_append, qlr_nil, quietEv, absEvW, wstep, Ctl.afterLoop, hb, hw2, hp2, hl]
+            | cons a oip =>
+              wexec [TopPost, qlr_cons, qlr_append, qlr_nil, quietEv, absEvW, wstep, Ctl.afterLoop, hb, hw2, hp2, hl]
+          · simp_all [TopPost, qlr_cons, qlr_append, quietEv, absEvW, wstep, Ctl.afterLoop]
+    · wexec [TopPost, qlr_cons, qlr_nil, quietEv, absEvW, wstep, hb]
+
+/-! ## one batch: the traversal `__cds_wfcq_for_each_blocking_safe(&cbs_tmp_head, &cbs_tmp_tail, cbs, cbs_tmp_n)` and
+`uatomic_sub(&workqueue->qlen, cbcount)`
+
+PARTIAL: proved for the oracles `FeInp` under which the traversal never has to busy-wait for a `next` pointer (every
+enqueuer's delayed store `old_tail->next = node` has been committed before the worker loads it): a load of `cbs->next`
+returns either a node, or NULL and then the load of `cbs_tmp_tail.p` returns `cbs` (end of the list).  The busy-wait path
+(`___cds_wfcq_node_sync_next`, accepted by the automaton at `fetchS`) is not covered by the theorem. -/
+
+def thenOf : Stmt → Stmt
+  | .ifte _ a _ => a
+  | s => s
+
+/-- `if (splice_ret != CDS_WFCQ_RET_SRC_EMPTY) { … }`: statement 7 of the loop body -/
+def wBatch : Stmt := seqNth 7 wBody
+/-- the traversal loop followed by `uatomic_sub(&workqueue->qlen, cbcount)` -/
+def wForEach : Stmt := .seq (seqNth 4 (thenOf wBatch)) (seqNth 5 (thenOf wBatch))
+/-- body of the traversal loop -/
+def wFEBody : Stmt := (innerLoop wBatch).getD .skip
+
+/-- oracle of the traversal from the work `u` (node `&u->next`) without busy-waiting: value of `cbs->next`; if NULL: value of
+`cbs_tmp_tail.p`, which is `cbs`; then the result of the work function (ignored) -/
+def FeInp : List Val → Loc → Prop
+  | [], _ => True
+  | [v1], _ => v1 = .int 0 ∨ ∃ u2, v1 = .ptr (.field u2 "next")
+  | v1 :: v2 :: rest2, u =>
+    (v1 = .int 0 ∧ v2 = .ptr (.field u "next")) ∨ (∃ u2, v1 = .ptr (.field u2 "next") ∧ FeInp rest2 u2)
+
+/-- loop invariant: `_t9` = the node to run next (`fetch0`), or NULL when the list is exhausted (`sub`); `cbcount` = the
+automaton's count -/
+def FeInv (L : Layout) (rt : Bool) (priv0 : Loc → Option Val) (env : Env) (inp : List Val) (ls : WLState) : Prop :=
+  env.vars "workqueue" = some (.ptr L.W) ∧ env.priv = priv0 ∧ ∃ cnt : Nat, env.vars "cbcount" = some (.int cnt) ∧
+    ((∃ u, env.vars "_t9" = some (.ptr (.field u "next")) ∧ ls = ⟨.fetch0 (.field u "next"), cnt, rt⟩ ∧ FeInp inp u) ∨
+     (env.vars "_t9" = some (.int 0) ∧ ls = ⟨.at .sub, cnt, rt⟩))
+
+def FeEnd (L : Layout) (rt : Bool) (priv0 : Loc → Option Val) (c : Ctl) (env : Env) (_inp : List Val) (ls : WLState) : Prop :=
+  (c = .brk ∧ env.vars "workqueue" = some (.ptr L.W) ∧ env.priv = priv0 ∧
+      ∃ cnt : Nat, env.vars "cbcount" = some (.int cnt) ∧ ls = ⟨.at .sub, cnt, rt⟩) ∨
+  (c = .blocked ∧ ∃ cnt : Nat, ∃ p, ls = ⟨p, cnt, rt⟩ ∧ p.abs = .inv)
+
+theorem fe_body (L : Layout) (fuel : Nat) (rt : Bool) (priv0 : Loc → Option Val)
+    (hfunc : ∀ u, ∃ fv, priv0 (.field u "func") = some fv) (env : Env) (inp : List Val) (ls : WLState)
+    (hI : FeInv L rt priv0 env inp ls) :
+    ∃ o, exec fuel wFEBody env inp = .ok o ∧ ∃ ls', wlr L ls o.events = some ls' ∧
+      (if o.ctl.goesOn then FeInv L rt priv0 o.env o.inp ls' else FeEnd L rt priv0 o.ctl o.env o.inp ls') := by
+  obtain ⟨hw, hp, cnt, hc, hcase⟩ := hI
+  rcases hcase with ⟨u, h9, rfl, hi⟩ | ⟨h9, rfl⟩
+  · obtain ⟨fv, hfv⟩ := hfunc u
+    cases inp with
+    | nil =>
+      wexec [wFEBody, innerLoop, wBatch, seqNth, wBody, firstLoop, Gen.Src.«workqueue_thread»,
+        Gen.Src.«___cds_wfcq_next_blocking», Gen.Src.«___cds_wfcq_next», wlr, wrun, Ctl.goesOn, FeEnd, WLPc.abs]
+      exact ⟨_, _, ⟨rfl, rfl⟩, rfl⟩
+    | cons v1 rest =>
+      cases rest with
+      | nil =>
+        rcases hi with rfl | ⟨u2, rfl⟩ <;>
+          wexec [wFEBody, innerLoop, wBatch, seqNth, wBody, firstLoop, Gen.Src.«workqueue_thread»,
+            Gen.Src.«___cds_wfcq_next_blocking», Gen.Src.«___cds_wfcq_next», wlr, wrun, Ctl.goesOn, FeEnd, WLPc.abs,
+            absEvW, wstep] <;> exact ⟨_, _, ⟨rfl, rfl⟩, rfl⟩
+      | cons v2 rest2 =>
+        rcases hi with ⟨rfl, rfl⟩ | ⟨u2, rfl, hi⟩
+        · cases rest2 with
+          | nil =>
+            wexec [wFEBody, innerLoop, wBatch, seqNth, wBody, firstLoop, Gen.Src.«workqueue_thread»,
+              Gen.Src.«___cds_wfcq_next_blocking», Gen.Src.«___cds_wfcq_next», wlr, wrun, Ctl.goesOn, FeEnd, WLPc.abs,
+              absEvW, wstep]
+            exact ⟨_, _, ⟨rfl, rfl⟩, rfl⟩
+          | cons v3 rest3 =>
+            wexec [wFEBody, innerLoop, wBatch, seqNth, wBody, firstLoop, Gen.Src.«workqueue_thread»,
+              Gen.Src.«___cds_wfcq_next_blocking», Gen.Src.«___cds_wfcq_next», wlr, wrun, Ctl.goesOn, FeEnd, FeInv,
+              WLPc.abs, absEvW, wstep]
+        · wexec [wFEBody, innerLoop, wBatch, seqNth, wBody, firstLoop, Gen.Src.«workqueue_thread»,
+            Gen.Src.«___cds_wfcq_next_blocking», Gen.Src.«___cds_wfcq_next», wlr, wrun, Ctl.goesOn, FeEnd, FeInv,
+            WLPc.abs, absEvW, wstep]
+  · wexec [wFEBody, innerLoop, wBatch, seqNth, wBody, firstLoop, Gen.Src.«workqueue_thread», wlr, wrun, Ctl.goesOn,
+      FeEnd]
+
+/-- **one batch** (`wForEach`, from the state in which `_t9` holds the first node of the private list, L2's `inv`; no
+busy-waiting: `FeInp`): never fails; the accepted label sequence is `(next(cᵢ) = cᵢ₊₁ ; run cᵢ)* ; subQlen n` – by the shape of
+`WqL.wstep` every node the traversal returns is run exactly once, at once, in traversal order (`wq_worker_run`), with
+`uwp = caa_container_of(cbs, struct urcu_work, next)`, and `qlen` is decremented by exactly the number `n` of works run
+(`subQlen n` is accepted only for `n = cnt`); a completed batch is at L2's `stopchk`. -/
+def FePost (L : Layout) (rt : Bool) (ls : WLState) (out : Out) : Prop :=
+  ∃ ls', wlr L ls out.events = some ls' ∧ ls'.rt = rt ∧
+    ((out.ctl = .normal ∧ ls'.pc = .at .stopchk) ∨
+     ((out.ctl = .blocked ∨ out.ctl = .fuel) ∧ (ls'.pc.abs = .inv ∨ ls'.pc = .at .sub)))
+
+theorem worker_foreach_exec (L : Layout) (fuel : Nat) (rt : Bool) (priv0 : Loc → Option Val)
+    (hfunc : ∀ u, ∃ fv, priv0 (.field u "func") = some fv) (env : Env) (inp : List Val) (ls : WLState)
+    (hI : FeInv L rt priv0 env inp ls) :
+    ∃ out, exec fuel wForEach env inp = .ok out ∧ FePost L rt ls out := by
+  rw [show wForEach = Stmt.seq (.loop wFEBody) (.prim _ _ _) from rfl]
+  obtain ⟨out, ho, evs, ls2, hev, hl, hfin⟩ :=
+    iterate_inv' (wlr L) (wlr_nil L) (wlr_append L) (exec fuel wFEBody) (FeInv L rt priv0) (FeEnd L rt priv0)
+      (fe_body L fuel rt priv0 hfunc) fuel env inp ls [] hI
+  rcases out with ⟨oev, oen, oip, octl⟩
+  simp only [List.nil_append] at hev
+  subst hev
+  rw [exec_seq, exec_loop, ho]
+  rcases hfin with ⟨rfl, -, -, cnt, -, hcase⟩ | ⟨c, -, hR, rfl⟩
+  · rcases hcase with ⟨u, -, rfl, -⟩ | ⟨-, rfl⟩ <;>
+      simp_all [seqPost, FePost, WLPc.abs]
+  · rcases hR with ⟨rfl, hw2, hp2, cnt, hc2, rfl⟩ | ⟨rfl, cnt, p, rfl, hp⟩
+    · simp only at hw2 hp2 hc2
+      cases oip with
+      | nil => wexec [FePost, Ctl.afterLoop, wlr_append, hl, hw2, hc2, wlr_nil]
+      | cons a oip =>
+        wexec [FePost, Ctl.afterLoop, wlr_append, hl, hw2, hc2, wlr_cons, wlr_nil, absEvW, wstep]
+    · simp_all [seqPost, FePost, Ctl.afterLoop]
 
 end UrcuVerif.Src.WqR
